@@ -15,6 +15,7 @@ Any number of classes `K = n + 1`, of trees, of leaves; any real leaf outputs (h
 `IsProb p` : all entries `≥ 0` and `Σ p = 1`.  Floating-point rounding is outside these statements.
 -/
 import Xrfmv.Lemmas.Codec
+import Xrfmv.Props.C09
 
 namespace Xrfmv.Props.C12
 open Xrfmv.Codec Finset BigOperators
@@ -159,5 +160,55 @@ example : ∃ (trees : Fin 2 → TreeAt ℝ 1), (∀ t, (trees t).Valid) ∧
       · fin_cases l <;> norm_num
       · rw [Fin.sum_univ_two]; norm_num
   exact ⟨trees, hv, predict_proba_valid _ (by norm_num) (by norm_num) _ IsLeafDecoder.binary (by norm_num) trees hv⟩
+
+/-! ### soft-routed trees: the simplex hypothesis is C09's theorem -/
+
+theorem sum_fin_getD (l : List ℝ) : ∑ i : Fin l.length, l.getD i 0 = l.sum := by
+  have h : List.ofFn (fun i : Fin l.length => l.getD i 0) = l := by
+    apply List.ext_getElem
+    · simp
+    · intro i h1 h2
+      simp [List.getD_eq_getElem?_getD, List.getElem?_eq_getElem (by simpa using h1 : i < l.length)]
+  conv_rhs => rw [← h]
+  rw [List.sum_ofFn]
+
+/-- The per-row state of a soft-routed tree as `_predict_tree_soft` computes it: leaf log-probabilities `lps`, the
+sorting permutation `perm` of the soft-max weights (oracle with the sort contract), truncation by `keep` / `cap`, and
+the leaves' raw outputs. -/
+noncomputable def softTreeOf {m : ℕ} (lps : List ℝ) (keep : ℝ) (cap : ℕ) (perm : List ℕ)
+    (raws : Fin lps.length → Vec ℝ m) : TreeAt ℝ m :=
+  .soft lps.length
+    (fun i => (Xrfmv.Soft.finalWeights keep cap (Xrfmv.Soft.leafWeights lps) perm).2.getD i 0) raws
+
+/-- **C12 (soft routing, unconditional)**: the weights `_predict_tree_soft` mixes the leaf rows with lie on the simplex
+(C09 `weights_simplex`), so a soft-routed tree is `Valid` for every temperature, keep fraction, cap and tie-breaking of
+the sort — the hypothesis `hv` of `predict_proba_valid` is discharged for the trees the implementation builds. -/
+theorem soft_tree_valid {m : ℕ} (lps : List ℝ) (hne : lps ≠ []) (keep : ℝ) (cap : ℕ) (perm : List ℕ)
+    (hs : Xrfmv.Soft.SortContract (Xrfmv.Soft.leafWeights lps) perm) (raws : Fin lps.length → Vec ℝ m) :
+    (softTreeOf lps keep cap perm raws).Valid := by
+  obtain ⟨_, hlen, hnn, hsum, _⟩ := Xrfmv.Props.C09.weights_simplex lps hne keep cap perm hs
+  set fw := (Xrfmv.Soft.finalWeights keep cap (Xrfmv.Soft.leafWeights lps) perm).2 with hfw
+  refine ⟨fun l => ?_, ?_⟩
+  · have hl : (l : ℕ) < fw.length := by rw [hlen]; exact l.isLt
+    show 0 ≤ fw.getD l 0
+    rw [List.getD_eq_getElem?_getD, List.getElem?_eq_getElem hl]
+    exact hnn _ (List.getElem_mem hl)
+  · show ∑ l : Fin lps.length, fw.getD l 0 = 1
+    rw [← hsum, ← sum_fin_getD fw]
+    exact (Fin.sum_congr' (fun i => fw.getD i 0) hlen.symm).symm ▸ rfl
+
+/-- **C12 validity of `predict_proba`, no hypothesis on the trees**: every tree is either hard-routed or the soft-routed
+tree `_predict_tree_soft` builds (any temperature, keep fraction, cap, sort tie-breaking). -/
+theorem predict_proba_valid_built (ε : ℝ) (h0 : 0 < ε) (h1 : ε < 1) {m K T : ℕ} (P : Vec ℝ m → Vec ℝ K)
+    (hP : IsLeafDecoder ε P) (hT : 1 ≤ T) (trees : Fin T → TreeAt ℝ m)
+    (hb : ∀ t, (∃ raw, trees t = .hard raw) ∨
+      ∃ (lps : List ℝ) (_ : lps ≠ []) (keep : ℝ) (cap : ℕ) (perm : List ℕ)
+        (_ : Xrfmv.Soft.SortContract (Xrfmv.Soft.leafWeights lps) perm) (raws : Fin lps.length → Vec ℝ m),
+        trees t = softTreeOf lps keep cap perm raws) :
+    IsProb (predictProba P trees) := by
+  refine predict_proba_valid ε h0 h1 P hP hT trees fun t => ?_
+  rcases hb t with ⟨raw, h⟩ | ⟨lps, hne, keep, cap, perm, hs, raws, h⟩
+  · rw [h]; trivial
+  · rw [h]; exact soft_tree_valid lps hne keep cap perm hs raws
 
 end Xrfmv.Props.C12
